@@ -76,7 +76,7 @@ def rule_generator(rep: Report, rid="C11.gen") -> None:
                 sites += 1
                 rep.ob(rid, "the id counter is written only by the generator's constructor and get_next_id (never rewound or reset)",
                        f.qualname in allowed, file=f.file, line=n.lineno, function=f.qualname, expected=sorted(allowed), found=f.qualname)
-            if isinstance(n, ast.Attribute) and n.attr == "id_generator" and isinstance(n.ctx, (ast.Store, ast.Del)):
+            if isinstance(n, ast.Attribute) and n.attr in {N.idgen_attr(q_) for q_ in ("gherkin.pickles.compiler.Compiler", "gherkin.ast_builder.AstBuilder")} and isinstance(n.ctx, (ast.Store, ast.Del)):
                 rep.ob(rid, "id_generator attributes are bound once, in constructors", f.name == "__init__", file=f.file, line=n.lineno, function=f.qualname,
                        expected="__init__", found=f.name)
     rep.floor("id counter write sites", sites, 2)
@@ -89,7 +89,7 @@ def rule_generator(rep: Report, rid="C11.gen") -> None:
         tree3, rv3, st3 = I3.run(fi3.qualname)
         rep.used_function(fi3.qualname)
         s3, g3 = ("param", fi3.params()[0]), ("param", fi3.params()[1])
-        v = st3.ext.get((s3, "id_generator")) if st3 else None
+        v = st3.ext.get((s3, N.idgen_attr(cq))) if st3 else None
         ok = False
         if v is not None:
             dec = nf.decisions(v)
